@@ -14,6 +14,13 @@ import os
 import sys
 
 REPO = os.environ.get('VERIF_REPO', '/repo')
+
+ENGINE_PATCHES = [
+    'crosshair.libimpl.relib._Match.groupdict returned spans instead of substrings -> replaced (6 lines)',
+    'crosshair.opcode_intercept.BoolStashingValue.__bool__ failed on proxies without __bool__ (x = not symbolic_bytes) -> falls back to len()',
+    'symbolic bytes.split(sep) realized the bytes -> find()-based definition for non-empty sep without maxsplit',
+    'crosshair.simplestructs.SequenceConcatenation.__eq__ returned False for an empty concrete tail vs empty symbolic slice -> operands swapped, empty halves skipped',
+]
 _installed = False
 
 
@@ -75,6 +82,76 @@ def patch_crosshair():
             ret[name] = default if span is None else self.string[span[0]:span[1]]
         return ret
     _relib._Match.groupdict = _fixed_groupdict
+
+    # CrossHair 0.0.110: ``x = not seq`` (UNARY_NOT whose result is used as a value)
+    # calls ``seq.__bool__()`` directly; symbolic bytes/str/list proxies only define
+    # ``__len__`` -> spurious AttributeError.  Fall back to the language rule.
+    import crosshair.opcode_intercept as _oi
+    from crosshair.tracers import NoTracing as _NoTracing
+    from crosshair.z3util import z3Not as _z3Not
+
+    def _stash_bool(self):
+        v = self.value
+        if hasattr(type(v), '__bool__'):
+            stashed = v.__bool__()
+        elif hasattr(type(v), '__len__'):
+            stashed = (v.__len__() != 0)
+        else:
+            stashed = True
+        with _NoTracing():
+            if self.negate:
+                if isinstance(stashed, _oi.SymbolicBool):
+                    self.stashed_bool = _oi.SymbolicBool(_z3Not(stashed.var))
+                else:
+                    self.stashed_bool = not stashed
+            else:
+                self.stashed_bool = stashed
+        return True
+    _oi.BoolStashingValue.__bool__ = _stash_bool
+
+    # CrossHair 0.0.110: symbolic ``bytes.split(sep)`` falls back to realizing the
+    # bytes (value enumeration).  Provide the find()-based definition of the
+    # language semantics for a non-empty separator and no maxsplit.
+    import crosshair.libimpl.builtinslib as _bl
+
+    def _bytes_split(self, sep=None, maxsplit=-1):
+        if sep is None or maxsplit != -1 or not isinstance(sep, (bytes, bytearray)):
+            return bytes(self).split(sep, maxsplit)
+        n = len(sep)
+        if n == 0:
+            raise ValueError('empty separator')
+        parts = []
+        rest = self
+        while True:
+            i = rest.find(sep)
+            if i == -1:
+                parts.append(rest)
+                return parts
+            parts.append(rest[:i])
+            rest = rest[i + n:]
+    _bl.BytesLike.split = _bytes_split
+
+    # CrossHair 0.0.110: SequenceConcatenation.__eq__ compares ``second == other[firstlen:]``
+    # with the concrete operand on the left; for an empty concrete tail against an
+    # empty symbolic slice this yields False (``('[' + s + ']')[1:-1] == s`` refuted
+    # spuriously).  Compare with the symbolic operand on the left and skip empty halves.
+    import crosshair.simplestructs as _ss
+
+    def _concat_eq(self, other):
+        with _NoTracing():
+            if not hasattr(other, '__len__'):
+                return False
+            first, second = self._first, self._second
+        if self.__len__() != other.__len__():
+            return False
+        firstlen = first.__len__()
+        secondlen = second.__len__()
+        if secondlen == 0:
+            return other[:firstlen] == first
+        if firstlen == 0:
+            return other[firstlen:] == second
+        return other[:firstlen] == first and other[firstlen:] == second
+    _ss.SequenceConcatenation.__eq__ = _concat_eq
 
 
 def verify_pure():
